@@ -24,6 +24,9 @@ func (g *Gen) allocFresh(pfx string) string {
 	al := g.sv("$alloc", "(Array Int Bool)")
 	g.assume(fmt.Sprintf("(and (not (= %s 0)) (not (select %s %s)) (= (subtag %s) 0) (= (rootof %s) %s))", r, al, r, r, r, r))
 	g.setSV("$alloc", "(Array Int Bool)", fmt.Sprintf("(store %s %s true)", al, r))
+	// no lock embedded in (or identical to) a fresh object is held
+	held := g.sv("$held", "(Array Int Bool)")
+	g.assume(fmt.Sprintf("(forall ((l Int)) (! (=> (= (rootof l) %s) (not (select %s l))) :pattern ((select %s l))))", r, held, held))
 	return r
 }
 
@@ -625,8 +628,15 @@ func (g *Gen) instr(b *ssa.BasicBlock, idx int, ins ssa.Instruction) {
 		case *ssa.FieldAddr:
 			bv = ad.X
 		}
+		if al, isAl := x.Addr.(*ssa.Alloc); isAl {
+			bv = al
+		}
 		if _, isSt := structOf(x.Val.Type()); !isSt && bv != nil {
 			g.curStore = &storeRec{base: a.Base, baseVal: bv}
+		} else if isSt && bv != nil {
+			if _, isAl := bv.(*ssa.Alloc); isAl {
+				g.curStore = &storeRec{base: a.Base, baseVal: bv, whole: true}
+			}
 		}
 		g.storeValue(a, x.Val.Type(), g.term(x.Val).S, 0)
 		g.curStore = nil
@@ -762,6 +772,8 @@ func (g *Gen) eq(a, b Term) string {
 func (g *Gen) alloc(x *ssa.Alloc) {
 	r := g.allocFresh("new")
 	g.define(x, r)
+	g.curStore = &storeRec{base: r, baseVal: x, whole: true}
+	defer func() { g.curStore = nil }()
 	et := x.Type().Underlying().(*types.Pointer).Elem()
 	switch u := et.Underlying().(type) {
 	case *types.Struct:
@@ -1508,7 +1520,7 @@ func (g *Gen) preciseLoopWrites(h *ssa.BasicBlock, n string) ([]string, bool) {
 			return nil, false
 		}
 		for _, r := range g.pass1.storeRecs[bb][n] {
-			if !g.loopInvariant(h, r.baseVal) {
+			if r.whole || !g.loopInvariant(h, r.baseVal) {
 				return nil, false
 			}
 			if !seen[r.base] {
